@@ -1,4 +1,4 @@
-import GcArena.Model.Arena
+import GcArena.Proofs.LogRun
 /-!
 # C10 — Metrics are truthful (property theorems)
 
@@ -30,6 +30,28 @@ theorem adjust_exact (m : Metrics) (x : Rat) (h1 : 0 < m.allocationDebt)
   unfold Metrics.allocationDebt Metrics.adjustDebt Metrics.cycleDebits Metrics.cycleCredits at *
   simp only at *
   grind
+
+/-- `total_gc_count` equals the number of allocations made and not yet released — inside and
+    outside callbacks, in every state of every history — and no counter update ever underflowed
+    (including write barriers on objects of non-tracing types: `Op.barrier` is in `inv_run`). -/
+theorem count_exact (n : Nat) (ops : List Op) (halive : ((Arena.new n).run ops).alive = true) :
+    let c := ((Arena.new n).run ops).ctx
+    c.metrics.totalGcs = c.all.length ∧ c.all.Nodup ∧ (∀ i, i ∈ c.all ↔ ∃ o, c.heap.get i = some o) ∧
+    c.metrics.underflow = false := by
+  have h := (inv_run n ops halive).cinv
+  exact ⟨h.count, h.nodup, h.memAll, h.noUnderflow⟩
+
+/-- … and it reads zero after the arena is dropped, whatever the phase. -/
+theorem count_zero_after_drop (n : Nat) (ops : List Op) (halive : ((Arena.new n).run ops).alive = true)
+    (hcb : ((Arena.new n).run ops).cb = none) :
+    (((Arena.new n).run ops).step .dropArena).1.ctx.metrics.totalGcs = 0 := by
+  have hi : Inv ((Arena.new n).run ops) := inv_run n ops halive
+  have hnot : (!((Arena.new n).run ops).alive) = false := by rw [hi.alive]; rfl
+  unfold Arena.step
+  rw [hnot]
+  simp only [Bool.false_eq_true, if_false, Arena.stepBody]
+  rw [hcb]
+  exact (dropAll_spec hi.cinv (linv_run n ops)).2.2.1
 
 /-- Non-vacuity: a concrete metrics state with positive debt. -/
 example : (0 : Rat) < ({ Metrics.new with totalGcs := 3, allocated := 3 } : Metrics).allocationDebt := by
